@@ -26,6 +26,11 @@ CHECKS = {
    note="Jumps are generated towards legal targets only. For a label defined twice only the duplicate diagnostic is compared. Bounded by MaxOps/MaxNest/MaxItems of each configuration. Trusted: TLC, go/types (as validator of the specification), the renderer.",
    technique="TLA+ spec of Go's terminating-statement rules + TLC exhaustive enumeration + replay on the real CodeBuilder, go/types cross-validation of the spec",
    design_ref="DESIGN.md section 5 C10"),
+ "C09": dict(level="model_checking",
+   text="Imports.tla states what the property demands over the client-visible history (two files, declarations stored per file, references to three imported packages two of which share a base name, package-level / parameter / result / local names equal to import names, discarded references, deleted declarations, force-imports, cross-file bodies, a growing var block, writes at any time) and predicts the import set of every file after every operation. TLC enumerates all histories of five bounded configurations; each is replayed on a real Package with a synthetic importer; every mid-history and final write is parsed, its import block compared with the prediction, and the output type-checked by go/types (unique names, no collision with declared or enclosing local names, references resolve). Failing histories are minimised and keyed by operation signature / root cause.",
+   note="Import names are an implementation choice (only uniqueness / non-collision / resolution are checked). Bounded: 3-5 operations per history, 2 files, 3 paths. Five root-cause classes are known findings (cross-file body, deleted type, force-import+discard, name declared after a write, parameter/result named like the import); a failure inside such a class is attributed to it. Trusted: TLC, go/parser, go/types.",
+   technique="TLA+ spec + TLC exhaustive history enumeration + replay with go/types on every written file, delta-debugged finding keys",
+   design_ref="DESIGN.md section 5 C09"),
 }
 
 def sh(cmd):
